@@ -8,6 +8,17 @@ for l in open("/verif/properties.jsonl"):
     p = json.loads(l)
     if p["id"] == pid:
         break
+import glob, os
+prev = []
+for mp in sorted(glob.glob("/verif/seeded/%s-*/meta.json" % pid)):
+    try:
+        prev.append(json.load(open(mp)).get("summary", "")[:300])
+    except Exception:
+        pass
+already = ""
+if prev:
+    already = "\n\nChanges of the following kind have ALREADY been produced by someone else; do NOT repeat them or close variants (different file or mechanism is required):\n" + "\n".join("  - " + x for x in prev) + "\nAim for changes that are HARDER to notice than those: they should survive a check that compares the shipped data sets against an independent reference at ordinary inputs, and only show up for a rarer input class, a longer or more specific call history, a configuration that is not the default, or data that the shipped tables do not contain but the documented feature set allows.\n"
+out_dir = "out2" if prev else "out"
 print(f"""You are helping to evaluate a verification harness by producing *seeded defects* for the open-source project AceTime (an Arduino C++ date/time/timezone library plus Python tooling: a TZ-database compiler under tools/ and a Python reference implementation of the zone algorithm).
 
 Your scratch git worktree of the repository is {wt} (already created, detached HEAD). Work ONLY inside {wt} (and /tmp/{pid}_work for any build output you need). Do NOT read, list or touch /verif or /repo, and do not look at other /tmp/wt_* directories.
@@ -24,11 +35,11 @@ Task: produce {n} DIFFERENT, independent source changes to the repository (each 
   (b) still compiles (C++: `clang++ -std=c++11`; Python: imports fine), and
   (c) still passes the existing test suite:  cd {wt} && /venv/bin/python -m pytest -q -p no:cacheprovider tools/tests   (34 tests; note the C++ code has no runnable host tests in this suite),
   (d) is REALISTIC (the kind of slip a maintainer could make: off-by-one, wrong comparison, a stale cache flag, a swapped field, an edited table entry, a dropped normalisation step...) and SUBTLE: it must need something specific to manifest — an unusual input, a particular year/zone/boundary, a multi-step call sequence, a particular history or interleaving, or two cooperating sites that each look fine alone. Do NOT make changes that ordinary use would expose at once (e.g. every query returning garbage, every zone wrong all year).
-  Prefer changes in different files / mechanisms from one another. Edits to generated data tables (src/ace_time/zonedb*/ *.cpp) are allowed when the property is about them, but at most one of your changes may be a pure data edit.
+  Prefer changes in different files / mechanisms from one another.{already} Edits to generated data tables (src/ace_time/zonedb*/ *.cpp) are allowed when the property is about them, but at most one of your changes may be a pure data edit.
 
 For each change provide a DEMONSTRATION: a small self-contained program or script that FAILS (non-zero exit or prints a clear mismatch) with the change applied and PASSES on the pristine tree. For C++ you must build on the host: the library is Arduino code, so write your own minimal stand-ins (Arduino.h, Print.h, pgmspace.h, AceCommon.h providing ace_common::printPad2To / incrementMod / incrementModOffset / strcmp_PP / TimingStats; define -DUNIX_HOST_DUINO; `extern "C" unsigned long millis()`; a global `Print Serial`) in /tmp/{pid}_work/shim and compile src/ace_time/*.cpp, src/ace_time/common/DateStrings.cpp and the zonedb/zonedbx .cpp files together with your demo (do NOT include AceTime.h as a whole: hw/, NtpClock, DS3231Clock and SystemClockCoroutine do not build on a host; include the individual ace_time/*.h headers you need). For Python use /venv/bin/python with PYTHONPATH={wt}/tools. zic and zdump are installed (/usr/sbin/zic, /usr/bin/zdump) if you want an oracle. There is no network.
 
-Deliverables, written under /tmp/{pid}_work/out/<k>/ for k = 1..{n}:
+Deliverables, written under /tmp/{pid}_work/{out_dir}/<k>/ for k = 1..{n}:
   - patch.diff   : `git -C {wt} diff` output for that change alone (against pristine HEAD), applying cleanly with `git apply`
   - demo.sh (+ any files it needs, all inside that directory; the demo takes the repository root as $1): exits 0 on pristine tree, non-zero on patched tree
   - meta.json    : {{"property": "{pid}", "summary": "...", "needs_to_manifest": "what specific input/history/boundary it needs", "files_changed": [...], "verified": "commands you ran and what they printed"}}
